@@ -525,7 +525,7 @@ def gen_cases(tier, rng, t, templates, samples, names_by_doc):
         cases.append(dict(doc=s, ops=[['merge', s, []]], family='merge-self'))
         cases.append(dict(doc=s, ops=[['pagebreak'], ['table', 0, False], ['delete'], ['reload']], family='ops-all-docs'))
     # (d) random histories
-    for _ in range(260 if tier == 'quick' else 4000):
+    for _ in range(260 if tier == 'quick' else 2500):
         cases.append(gen_history(rng, t, templates, samples, names_by_doc))
     return cases, nsys
 
